@@ -353,17 +353,20 @@ def oracle(sc, obs, w: World) -> Optional[Tuple[str, str]]:
         return None
     if not typed:
         return None  # outside the library's contract: raising is acceptable
+    delivered = k["chunks"] if k["fail_after"] is None else k["chunks"][: k["fail_after"]]
+    dec = "undecodable-output" if any(kind in ("bad", "split") for _t, kind in delivered) and not k["at_call"] else "undecodable-results-file"
+    what = ("a chunk of container output that is not valid UTF-8" if dec == "undecodable-output"
+            else "a non-text file the container left in /results (every non-.root file there is read as text for the log)")
     if fails:
         if out[1] == "UnicodeDecodeError":
-            return "log-decoding", "DockerException was replaced by UnicodeDecodeError while the output / the files in /results were being logged"
+            return dec, f"the container failed, but instead of DockerException the caller gets UnicodeDecodeError raised while logging {what}"
         if out[1] != "DockerException":
             return "error-class", f"container failed but {out[1]} reached the caller instead of DockerException"
         return None
     if not k["result"] or sc["outdir"] == "missing":
         return None  # an error is what the property demands
     if out[1] == "UnicodeDecodeError":
-        return "log-decoding", ("the container succeeded and wrote ANALYSIS.root, but UnicodeDecodeError was raised while its output / "
-                                "the files it left in /results were being logged: no result returned")
+        return dec, f"the container succeeded and wrote ANALYSIS.root, but UnicodeDecodeError was raised while logging {what}: no result is returned"
     if out[1] == "AssertionError" and sc["fresh_tempdir"]:
         return "tempdir-unset", "AssertionError because tempfile.tempdir is still None"
     return "spurious-error", f"the container succeeded and wrote the result but {out[1]} was raised: {obs['message']}"
@@ -561,7 +564,7 @@ def check(tier: str, seed: int, t0: float, build: core.BuildStatus) -> int:
     ps = core.proof_status(PROP_FILE, build)
     oc = core.Outcome()
     rng = random.Random(seed * 7919 + 17)
-    n_random = 1200 if tier == "quick" else 12000
+    n_random = 4000 if tier == "quick" else 40000
     cases = corpus()
     n_corpus = len(cases)
     cases.extend(gen_scenario(rng) for _ in range(n_random))
